@@ -4468,7 +4468,13 @@ def h_reduce_nonlocal(lens, parents, positions, cls='ListOffsetArray64'):
         else:
             obls.append(('no shifts for reducers that do not return positions', G(z3.BoolVal(len(ob['shifts']) != 0))))
     # the answer: per outer group the results of its position groups, in position order
-    for g_, res in nodeh.decode_cases(nc, out.mem, nc.m.cell('ret', 0)):
+    try:
+        cases = list(nodeh.decode_cases(nc, out.mem, nc.m.cell('ret', 0)))
+    except Unsupported as err:
+        # nothing readable where the answer should be: fine when every path raised (the obligation above reports that), inconclusive otherwise
+        cases = []
+        obls.append(('an answer that can be read back on every path that returns (%s)' % str(err)[:80], z3.Not(out.raised)))
+    for g_, res in cases:
         if res is None:
             obls.append(('a result is returned', z3.And(g_, z3.Not(out.raised)))); continue
         val = value(res)
@@ -4529,7 +4535,7 @@ def jobs_reduce_nonlocal(tier):
         q += [((1, 1, 1), (0, 0, 0)), ((3, 1, 2), (0, 0, 0)), ((2, 2), (0, 2)), ((1,), (0,)), ((0, 0), (0, 0))]
     js = [(h_reduce_nonlocal, (l, p, pos), 1800) for l, p in q for pos in (False, True)]
     for k, cls in enumerate(('ListOffsetArrayU32', 'ListArray64', 'ListArray32', 'RegularArray')):
-        for l, p in ([((2, 2), (0, 0))] if cls == 'RegularArray' else (q[4:5] if tier == 'quick' else q[:5])):
+        for l, p in (([((2, 2), (0, 0)), ((2, 2), (0, 2))] if tier == 'quick' else [((2, 2), (0, 0)), ((2, 2), (0, 2)), ((2,), (1,)), ((1, 1, 1), (0, 0, 2)), ((3, 3), (0, 1))]) if cls == 'RegularArray' else (q[4:5] if tier == 'quick' else q[:5])):
             js.append((h_reduce_nonlocal, (l, p, bool(k % 2), cls), 1800))
     return js
 
